@@ -142,4 +142,4 @@ def correspondence(ctx):
                                  {"scheme": scheme, "notation": kind, "pairs": pairs, "clause": why,
                                   "texts": {"github": gh, "snyk-comma": sc, "snyk-space": ss, "vers": vt}}, spec=str(want))
     ctx.sample({"github": ">= 1.0.0, < 2.0.0", "scheme": "npm",
-                "result": str(VR.build_range_from_github_advisory_constraint("npm", ">= 1.0.0, < 2.0.0"))})
+                "result": common.safe(lambda: VR.build_range_from_github_advisory_constraint("npm", ">= 1.0.0, < 2.0.0"))})
